@@ -199,6 +199,11 @@ def classify(res):
         sig = res.signal if res.signal is not None else res.rc - 128
         name = {6: "SIGABRT", 11: "SIGSEGV", 7: "SIGBUS", 8: "SIGFPE", 4: "SIGILL", 9: "SIGKILL"}.get(sig, f"signal{sig}")
         if "memory allocation of" in err:
+            frames = re.findall(r"^\s*\d+:\s+(.+)$", err, re.M)
+            first = next((f for f in frames if f.lstrip("<").startswith(IN_REPO)), None)
+            if first:
+                path, fn = frame_to_file_fn(first)
+                return "violation", f"abort:alloc@{path}::{fn}", err
             return "violation", "abort:alloc", err
         if "stack overflow" in err:
             return "violation", "abort:stack-overflow", err
@@ -760,8 +765,8 @@ def one_case(ctx, base, cmds, options, i):
         if v1 == "violation":
             sig, detail = sig1, detail1
         else:
-            ctx.note("crash-only-with:" + ("fork" if fork else f"threads={threads}"))
-            sig = sig + (":fork-mode-only" if fork else ":multi-threaded-only")
+            # keep the identity observed in the original mode (the re-run may have been disturbed)
+            ctx.note("canonical-rerun-did-not-reproduce:" + ("fork" if fork else f"threads={threads}"))
         report(ctx, base, case, sig, detail, i, d)
     else:
         ctx.note("outcome:" + ("linked" if res.rc == 0 else "diagnosed"))
